@@ -122,6 +122,11 @@ class _Found(Exception):
     pass
 
 
+# diagnostic: T4GC_LABELS_DUMP=<prefix> appends the label set of every
+# generated case to <prefix>.<pid> (tools/label_pairs.py reads them)
+_LABEL_DUMP = os.environ.get('T4GC_LABELS_DUMP')
+
+
 def pmap(func, jobs, nproc):
     """map over forked worker processes.  Unlike multiprocessing.Pool.map, a
     worker that dies (e.g. killed for lack of memory) raises
@@ -184,6 +189,9 @@ def run_shard(args):
                 stats.evaluations += 1
                 stats.labels.update(out.labels)
                 stats.counts.update(out.counts)
+                if _LABEL_DUMP:
+                    with open('%s.%d' % (_LABEL_DUMP, os.getpid()), 'a') as lf:
+                        lf.write(json.dumps(sorted(set(out.labels))) + '\n')
                 if out.kind == 'skip':
                     stats.skipped[out.bucket] += 1
                 if out.nontrivial and out.kind == 'ok':
